@@ -106,3 +106,22 @@ Print Assumptions C11_repair_same_language.
 Print Assumptions C11_repair_language_verbose.
 Print Assumptions C11_repair_same_language_verbose.
 Print Assumptions C11_repair_identity_without_surrogates.
+
+(* NON-VACUITY (Proofs/NonVacuity.v, worlds W8 and W5): inputs with non-ASCII code points
+   ("é_", U+1F4A9) built with escaping: the outputs the model computes are pure ASCII, as
+   C11_ascii says; with surrogate pairs the astral code point becomes \u{d83d}\u{dca9}. *)
+From Grex Require Proofs.NonVacuity.
+Theorem C11_nonvacuous : exists e8 s8 e5 s5,
+  NonVacuity.world_ok NonVacuity.c_W8 NonVacuity.db_W8 SCPass1 NonVacuity.ws_W8 true e8 s8
+  /\ NonVacuity.world_ok NonVacuity.c_W5 NonVacuity.db_W5 SCSkipped NonVacuity.ws_W5 true e5 s5
+  /\ Exists (Exists (fun x => 128 <= x)) NonVacuity.ws_W8
+  /\ Forall (fun x => x < 128) s8 /\ Forall (fun x => x < 128) s5
+  /\ s5 = [92; 117; 123; 100; 56; 51; 100; 125; 92; 117; 123; 100; 99; 97; 57; 125].
+Proof.
+  pose proof NonVacuity.W8 as W. pose proof NonVacuity.W5 as W'. do 4 eexists.
+  split; [exact W|]. split; [exact W'|]. split.
+  - apply Exists_cons_tl. apply Exists_cons_hd. apply Exists_cons_hd. vm_compute. discriminate.
+  - split; [exact (C11_ascii NonVacuity.isd NonVacuity.c_W8 _ _ _ _ eq_refl (NonVacuity.w_build _ _ _ _ _ _ _ W))|].
+    split; [exact (C11_ascii NonVacuity.isd NonVacuity.c_W5 _ _ _ _ eq_refl (NonVacuity.w_build _ _ _ _ _ _ _ W'))|reflexivity].
+Qed.
+Print Assumptions C11_nonvacuous.
